@@ -42,7 +42,7 @@ CFG = {
             "lists built by add or decoded definite/indefinite; (ma) MultiAsset via set_asset/insert, from_bytes of maps in arbitrary key order with repeated keys, "
             "from_json, names of length 0..32 around the head boundary 23/24, all orders of 3 (4) triples; (mint) MintBuilder add/set histories incl. amounts that "
             "cancel; (tx) TransactionBuilder scenarios with 0-8 explicit reference inputs, script-source reference inputs, overlapping regular inputs, both values "
-            "of the dedup flag, required signers with repeats, collateral, mint, repeated native scripts and extra datums, each built 3 times, rebuilt and built in "
+            "of the dedup flag, required signers with repeats, collateral, native and Plutus mint policies, Plutus-script inputs / withdrawals / certificates with witness datums and redeemers (the same script or datum arriving from several items and as extra datum, constructed and decoded-from-bytes copies), repeated native scripts and extra datums; scripts and datums are read from the EMITTED witness-set bytes decoded again; each scenario built 3 times, rebuilt and built in "
             "a second process; non-trivial = distinct case whose model observation is a full (ok) observation",
     "trusted_base": [
         "element identity = canonical CBOR bytes of the element (harness computes it with the library's own element codec; C01 proves the codecs)",
